@@ -159,6 +159,15 @@ impl Whirlpool {
 //@ fn state/whirlpool.rs update_rewards in=/^impl Whirlpool \{/ tags=C11,C01
     ensures *final(self) == (Whirlpool { reward_infos: reward_infos, reward_last_updated_timestamp: reward_last_updated_timestamp, ..*old(self) }),
 //@ end
+/// C11: changing one reward's emission rate first settles ALL rewards up to now (the freshly computed growths are stored and the shared clock moves), then the
+/// new rate applies to the indexed reward only
+//@ fn state/whirlpool.rs update_emissions in=/^impl Whirlpool \{/ -> r tags=C11
+    ensures
+        index >= 3 ==> r == err::<()>(ErrorCode::InvalidRewardIndex) && *final(self) == *old(self),
+        index < 3 ==> r is Ok && final(self).reward_last_updated_timestamp == timestamp
+            && (forall|k: int| 0 <= k < 3 ==> #[trigger] final(self).reward_infos[k] == (if k == index { WhirlpoolRewardInfo { emissions_per_second_x64: emissions_per_second_x64, ..reward_infos[k] } } else { reward_infos[k] }))
+            && *final(self) == (Whirlpool { reward_infos: final(self).reward_infos, reward_last_updated_timestamp: timestamp, ..*old(self) }),
+//@ end
 //@ fn state/whirlpool.rs update_rewards_and_liquidity in=/^impl Whirlpool \{/ tags=C11,C05,C12,C01
     ensures *final(self) == (Whirlpool { reward_infos: reward_infos, reward_last_updated_timestamp: reward_last_updated_timestamp, liquidity: liquidity, ..*old(self) }),
 //@ end
